@@ -216,6 +216,9 @@ func TestC18(t *testing.T) {
 			case 3:
 				return rapid.SampledFrom([]string{"nobody.jkl", "", "x", "jkl1notanaddress", "INBOX.jkl"}).Draw(rt, "oddTarget")
 			}
+			if rapid.IntRange(0, 7).Draw(rt, "upperCase") == 0 {
+				return strings.ToUpper(drawAcc(rt, "to").Bech) // another valid spelling of the same account
+			}
 			return drawAcc(rt, "to").Bech
 		}
 		rt.Repeat(map[string]func(*rapid.T){
